@@ -85,6 +85,17 @@ CLAIMED['C10'] = dict(
     technique='representation-invariant contracts with a ghost allocator, history-closing harnesses, integer-theory VCs (z3 5.1) on extracted real bodies; callee layout contract',
     design='4/C10')
 
+CLAIMED['C20'] = dict(
+    text='Contract proof with loop contracts (unbounded, |coordinates| <= 10^6) that bresenham_line_rasterizer writes exactly point_count() '
+         'points, first = start, last = end, strictly monotone and 8-connected along the major axis up to the final step; that '
+         'midpoint_circle_rasterizer (radius <= 4096) writes 8 points per step, exactly its step count, all inside the bounding box; that '
+         'apply_rasterizer writes exactly point_count() pixels, each emitted in the current call. Bounding box / one-pixel closeness of the '
+         'line and closeness / symmetry of the circle are bounded native stand-ins (all end-point pairs in a window on the real code), not proofs.',
+    note=TRUST + 'Known finding C20-line-overshoot (slope (|dy|+1)/(|dx|+1)) is carved out by its exact failing set. Trigonometric circle and '
+         'ellipse rasterizers are not covered. Output iterators / std::vector are ghost models.',
+    technique='function contracts + loop contracts (invariants, decreases) enforced by CBMC DFCC on extracted real bodies with a ghost emission monitor; bounded native exhaustive stand-ins for float-dependent clauses',
+    design='4/C20')
+
 NOT_APPLICABLE = {
     'C12': 'relates two whole template pipelines through a file/stream and external C libraries; no function contract within reach of a C verifier states what read_image returns after write_view (DESIGN 5)',
     'C13': 'equality of results of different compositions of reader classes/devices/policies over the same bytes is a relational property over I/O histories, not a pre/postcondition of an extractable function (DESIGN 5)',
